@@ -28,7 +28,16 @@ type dhasher struct {
 	seen map[unsafe.Pointer]int
 }
 
-func newDH() *dhasher { return &dhasher{buf: make([]byte, 0, 1<<15), seen: map[unsafe.Pointer]int{}} }
+var dhPool = sync.Pool{New: func() any { return &dhasher{buf: make([]byte, 0, 1<<16), seen: make(map[unsafe.Pointer]int, 256)} }}
+
+func newDH() *dhasher {
+	d := dhPool.Get().(*dhasher)
+	d.buf = d.buf[:0]
+	clear(d.seen)
+	return d
+}
+
+func (d *dhasher) done() { dhPool.Put(d) }
 
 func (d *dhasher) u64(x uint64) { d.buf = binary.LittleEndian.AppendUint64(d.buf, x) }
 func (d *dhasher) tag(b byte)   { d.buf = append(d.buf, b) }
@@ -71,6 +80,12 @@ func (d *dhasher) walk(v reflect.Value) {
 			d.walk(v.Index(i))
 		}
 	case reflect.Array:
+		if v.Type().Elem().Kind() == reflect.Uint8 {
+			for i := 0; i < v.Len(); i++ {
+				d.tag(byte(v.Index(i).Uint()))
+			}
+			return
+		}
 		for i := 0; i < v.Len(); i++ {
 			d.walk(v.Index(i))
 		}
